@@ -983,6 +983,12 @@ func (fc *funcContext) makeReceiver(e *ast.SelectorExpr) *expression {
 		x = fc.setType(fakeSel, recvType)
 	}
 
+	if _, isTypeParam := recvType.(*types.TypeParam); !isTypeParam && types.IsInterface(recvType) {
+		// Setting up an interface type is what makes a method call on its nil
+		// value fail with a run-time error: keep the type's declaration alive.
+		fc.typeName(recvType)
+	}
+
 	_, isPointer := recvType.Underlying().(*types.Pointer)
 	methodsRecvType := sel.Obj().Type().(*types.Signature).Recv().Type()
 	_, pointerExpected := methodsRecvType.(*types.Pointer)
